@@ -44,6 +44,8 @@ class Hist:
                     else:                                  # a file on disk with the media type stated by the caller (not the one its name suggests)
                         mt = rng.choice(['image/pjpeg', 'image/x-verif', 'image/jpeg']); nm = doc.addPicture(fn, mt)
                 self.picrefs.append((doc, nm, data, mt))
+                if kind == 'bytes' and k % 3 == 1:      # the same bytes once more, as another kind of picture: a picture of its own
+                    nm2 = doc.addPictureFromString(data, 'image/gif'); self.picrefs.append((doc, nm2, data, 'image/gif'))
             if rng.random() < 0.4:
                 cs = config.ConfigItemSet(name='s'); cs.addElement(config.ConfigItem(name='n', type='string', text='v')); doc.settings.addElement(cs)
         if rng.random() < 0.35:
